@@ -9,6 +9,9 @@
 import Nq.Users
 import Nq.Spec.Users
 import Nq.Lemmas.UsersSpawn
+import Nq.Lemmas.UsersLookup
+import Nq.Lemmas.UsersCdb
+import Nq.Lemmas.UsersGetpw
 
 namespace Nq.Props.C11
 open Nq Nq.Users Nq.Spec.Users Nq.Gen.Lspawn Nq.Lemmas.Users
@@ -114,5 +117,172 @@ theorem C11_defer :
 
 /-- a child killed by a signal is deferred as well -/
 theorem C11_defer_crash : reportCrashed = 90 := by decide
+
+/-- the exit codes nughde_get itself can produce (cdb unreadable, fork/pipe failure, qmail-getpw not startable or
+    failing: NFS, passwd busy, no alias user) are all reported as `Z`: a lookup error defers, it never bounces -/
+theorem C11_lookup_error_defers (env : Env) (flt : Fault) (loc : Bytes) (evs : List Ev) (c : Nat)
+    (h : nughdeGet env flt loc = (evs, .exit c)) : reportByte c = 90 := by
+  have key : c ∈ [QLX_CDB, QLX_SYS, QLX_USAGE, QLX_EXECPW, QLX_NFS, QLX_NOALIAS] := by
+    unfold nughdeGet at h
+    split at h
+    · simp at h; simp [h.2]
+    · split at h
+      · simp at h
+      · rename_i c' hc
+        simp only [Prod.mk.injEq, NgRes.exit.injEq] at h
+        have := nughdeCdb_exit _ _ _ hc
+        simp [← h.2, this]
+      · split at h
+        · simp at h; simp [← h.2]
+        · split at h
+          · rename_i evs' c' hg
+            have hc' : c' ≠ 0 ∧ c' = c := by
+              by_cases h0 : c' = 0
+              · simp [h0] at h
+              · simp [h0] at h; exact ⟨h0, h.2⟩
+            rw [← hc'.2]
+            unfold getpwChild at hg
+            split at hg
+            · simp at hg; simp [← hg.2]
+            · split at hg
+              · simp at hg; simp [← hg.2]
+              · split at hg
+                · simp at hg; simp [← hg.2]
+                · split at hg
+                  · simp at hg; simp [← hg.2]
+                  · simp only [Prod.mk.injEq] at hg
+                    have hm := hg.2
+                    rw [getpwMain_eq_spec] at hm
+                    unfold specGetpw at hm
+                    split at hm
+                    · simp at hm
+                    · simp at hm; simp [← hm]
+                    · simp at hm; simp [← hm]
+                    · split at hm
+                      · split at hm
+                        · simp at hm; simp [← hm]
+                        · simp at hm
+                      · simp at hm; simp [← hm]
+          · simp at h
+  have hall : ∀ c ∈ [QLX_CDB, QLX_SYS, QLX_USAGE, QLX_EXECPW, QLX_NFS, QLX_NOALIAS], reportByte c = 90 := by decide
+  exact hall c key
+
+/-! ## which user: the assignment table -/
+
+/-- nughde_get's lookup order (exact key, then shrinking prefixes gated by the recorded break characters, then the
+    empty prefix) computes exactly the declarative assignment: the first exact entry for the lower-cased address, else
+    the first entry with the LONGEST wildcard prefix of it (its `pre` followed by the rest of the address in original
+    case), else "not in the table". `lkTbl tbl` is the lookup function the source table defines
+    (`C11_cdb_roundtrip_partial` shows the compiled tables implement it). Hypotheses: the address is a C string and
+    the table's names are NUL-free — `C11_newu_table_ok` shows qmail-newu only produces such tables. -/
+theorem C11_lookup_spec (tbl : List Asg) (hT : ∀ a ∈ tbl, NUL ∉ a.name) (loc : Bytes) (hl : NUL ∉ loc) :
+    nughdeLoop (lkTbl tbl) (wildOf tbl []) loc =
+      match specLookup tbl loc with
+      | some r => .hit r
+      | none => .miss :=
+  nughdeLoop_spec tbl hT loc hl
+
+/-- every table qmail-newu's parser accepts has NUL-free names (it refuses lines containing NUL) -/
+theorem C11_newu_table_ok (assign : Bytes) (tbl : List Asg) (h : newuParse assign = some tbl) :
+    ∀ a ∈ tbl, NUL ∉ a.name :=
+  newuParse_names assign tbl h
+
+/-- the record stored under the empty key is the list of break characters nughde_get reads first -/
+theorem C11_wildchars_record (tbl : List Asg) : lkTbl tbl [] = .found (wildOf tbl []) :=
+  lkTbl_empty tbl
+
+/-! ## the compiled database
+
+  Full statement (design): `cdbGet (cdbMake es) k` = data of the first pair of `es` with key `k`, `notFound` if
+  absent, for total size < 2^32.  Proved here for the STRUCTURED tables — hashing, the 256 buckets, `2*count` slots,
+  linear probing with wrap-around in insertion order, first match in probe order — for every list (duplicates,
+  collisions, any size).  Not proved: that parsing the little-endian byte serialisation (`cdbSeek` on `cdbMake es`)
+  equals the structured lookup; that step is covered by the correspondence run (the real qmail-newu's bytes =
+  `cdbMake`'s byte for byte, real cdb_seek = `cdbSeek` = `findStruct` on every looked-up key). -/
+theorem C11_cdb_roundtrip_partial (es : List (Bytes × Bytes)) (k : Bytes) : findStruct es k = assocFind es k :=
+  findStruct_eq_assocFind es k
+
+/-- table lookup end to end on the structured database compiled from `tbl`: what nughde_get computes is what the
+    table says -/
+theorem C11_lookup_compiled (tbl : List Asg) (hT : ∀ a ∈ tbl, NUL ∉ a.name) (loc : Bytes) (hl : NUL ∉ loc) :
+    let lk : Bytes → Lk := fun k => match findStruct (pairsOf tbl) k with
+      | some d => .found d
+      | none => .notFound
+    (match lk [] with
+     | .found w => nughdeLoop lk w loc
+     | _ => NgRes.exit QLX_CDB) =
+      match specLookup tbl loc with
+      | some r => .hit r
+      | none => .miss := by
+  intro lk
+  have hlk : lk = lkTbl tbl := by
+    funext k
+    show (match findStruct (pairsOf tbl) k with | some d => Lk.found d | none => Lk.notFound) = lkTbl tbl k
+    rw [findStruct_eq_assocFind]; rfl
+  rw [hlk, lkTbl_empty]
+  exact nughdeLoop_spec tbl hT loc hl
+
+/-! ## which user: the password-file rules -/
+
+/-- qmail-getpw's loop = the declarative rules: the longest `user[-ext]` split (user part shorter than 32 bytes,
+    lower-cased) whose account is a non-root account owning its existing home; a temporary getpwnam/stat failure
+    met before that exits QLX_SYS/QLX_NFS; otherwise the alias user with dash "-" and the whole address as ext;
+    QLX_NOALIAS without one -/
+theorem C11_getpw_spec (db : PwDb) (loc : Bytes) : getpwMain db loc = specGetpw db loc :=
+  getpwMain_eq_spec db loc
+
+/-- what "is a user" means in that rule -/
+theorem C11_getpw_user_rule (db : PwDb) (name : Bytes) (pw : PwEnt) (h : acct db name = .user pw) :
+    db.getpwnam name = some pw ∧ pw.uid ≠ 0 ∧ db.stat pw.dir = .ok pw.uid := by
+  unfold acct at h
+  split at h
+  · simp at h
+  · rename_i pw' hg
+    split at h
+    · simp at h
+    · split at h
+      · simp at h
+      · rename_i hu
+        split at h
+        · rename_i o hs
+          split at h
+          · rename_i ho
+            simp only [Acct.user.injEq] at h
+            subst h; subst ho
+            exact ⟨hg, hu, hs⟩
+          · simp at h
+        · simp at h
+        · simp at h
+
+/-! ## non-vacuity: concrete inputs meeting the hypotheses -/
+
+/-- qmail-users(5)'s example: `+:alias…`, `+joe-:joe…`, `=joe:joe…` (data abbreviated to one byte) -/
+def exTbl : List Asg :=
+  [⟨true, [], [65]⟩, ⟨true, [106, 111, 101, 45], [66]⟩, ⟨false, [106, 111, 101], [67]⟩]
+
+example : ∀ a ∈ exTbl, NUL ∉ a.name := by decide
+-- "Joe-Direct" is handled by the second line (longest wildcard prefix, case-insensitive), keeping "Direct"
+example : specLookup exTbl [74, 111, 101, 45, 68, 105, 114, 101, 99, 116] = some [66, 68, 105, 114, 101, 99, 116, 0] := by decide
+-- "JOE" by the third (exact beats wildcard), "bill" by the first
+example : specLookup exTbl [74, 79, 69] = some [67, 0] := by decide
+example : specLookup exTbl [98, 105, 108, 108] = some [65, 98, 105, 108, 108, 0] := by decide
+example : nughdeLoop (lkTbl exTbl) (wildOf exTbl []) [74, 111, 101, 45, 68] = .hit [66, 68, 0] := by decide
+-- duplicates: the first pair wins, through hashing and probing
+example : findStruct [([33, 97, 0], [1]), ([33, 98, 0], [2]), ([33, 97, 0], [3])] [33, 97, 0] = some [1] := by decide
+
+/-- no users/cdb; passwd: alias (7790) and joe (uid 1001, owns /h/joe) -/
+def exEnv : Env :=
+  { cdb := none,
+    pw := { pws := [⟨[97, 108, 105, 97, 115], 7790, 2108, [47, 97], false⟩, ⟨[106, 111, 101], 1001, 100, [47, 104], false⟩],
+            dirs := [([47, 97], .ok 7790), ([47, 104], .ok 1001)] },
+    uidp := 7794, gidn := 2108, aliasempty := [46], autoQmail := [47] }
+
+-- "Joe-x@d" is delivered as joe with ext "x"; the trace ends in the guarded execv
+example : (docmd exEnv .none [115] [74, 111, 101, 45, 120, 64, 100]).2 = .exec := by decide
+example : ((docmd exEnv .none [115] [74, 111, 101, 45, 120, 64, 100]).1.getLast?) =
+    some (.execv localPath [localPath, [45, 45], [106, 111, 101], [47, 104], [74, 111, 101, 45, 120], [45], [120], [100], [115], [46]]) := by
+  decide
+-- with setuid failing nothing is executed and the exit code defers
+example : (docmd exEnv .setuid [115] [106, 111, 101, 64, 100]).2 = .exit QLX_USAGE := by decide
 
 end Nq.Props.C11
